@@ -557,7 +557,11 @@ func main() {
 						func(s string) string { o, _ := fixWith(rwr.rule(), s); return o },
 						func(s string) int { return len(lintWith(rwr.rule(), s)) })
 				}
-				checkRewrite("all-fixes", c, text, in, fixAll(text), fixAll, nil)
+				all := fixAll(text)
+				if ci%9973 == 11 {
+					run.Sample(map[string]any{"segs": c.Segs, "seps": c.Seps, "text": text, "all_fixes_output": all})
+				}
+				checkRewrite("all-fixes", c, text, in, all, fixAll, nil)
 				checkLint(c, text)
 				// language server: every text of <= 2 segments, a sample of the others
 				if len(c.Segs) <= 2 || ci%40 == 0 || tier == "thorough" && ci%8 == 0 {
